@@ -752,6 +752,7 @@ bool _mi_prim_getenv(const char* name, char* result, size_t result_size) {
     const char* s = env[i];
     if (_mi_strnicmp(name, s, len) == 0 && s[len] == '=') { // case insensitive
       // found it
+      if (_mi_strnlen(s + len + 1, result_size) >= result_size) return false;  // does not fit (a truncated value would be parsed as something else)
       _mi_strlcpy(result, s + len + 1, result_size);
       return true;
     }
